@@ -146,6 +146,42 @@ static void run_flood(uint64_t idx, pv_rng* rng) {
     free(ph);
 }
 
+/* strings whose length does not fit a 32-bit (or 31-bit) integer: "any length" includes them.  ASCII only, so that the
+ * library's own bounded copy is exercised and the normaliser is not asked to convert gigabytes. */
+static uint64_t n_huge(void) { return pv.scale_pct >= 100 ? (pv.tier ? 5 : 3) : 0; }
+static void run_huge(uint64_t idx, pv_rng* rng) {
+    static const uint64_t LEN[5] = { (1ull << 31) + 100, (1ull << 31) - 1, 1ull << 31, (1ull << 32) + 5, (1ull << 32) - 1 };
+    uint64_t n = LEN[idx % 5];
+    char* big = mmap(NULL, n + 1, PROT_READ | PROT_WRITE, MAP_PRIVATE | MAP_ANONYMOUS | MAP_NORESERVE, -1, 0);
+    if (big == MAP_FAILED) { PV_COUNT("huge.skipped(no address space)", 1); return; }
+    memset(big, 'a', n); big[n] = 0;
+    /* a valid English phrase in front, so that the first 16 tokens are real words and the rest is one endless token */
+    pv_mseed m; pv_gen_mseed(rng, 3, true, &m); unsigned coin = pv_gen_coin(rng); pv_mlang* L = pv_lang_by_name("English");
+    char ph[2048]; size_t pl = pv_m_encode(&m, L, coin, ph, sizeof ph); memcpy(big, ph, pl); big[pl] = ' ';
+    mprotect(big, n + 1, PROT_READ);
+    pv_cur.note = "huge-string";
+    polyseed_data* s = NULL; const polyseed_lang* lo = NULL;
+    pv_cur.in_ptr = NULL;
+    pv_world_begin("polyseed_decode"); int st = polyseed_decode(big, (polyseed_coin)coin, &lo, &s); pv_world_end();
+    PV_COUNT("evaluations", 1);
+    if (st != POLYSEED_ERR_NUM_WORDS) { pv_violation("C14/huge-string/decode", "a %llu-byte string (valid phrase followed by one endless token) -> %s", (unsigned long long)n, pv_status_name(st)); if (st == POLYSEED_OK) pv_api_free(s); }
+    s = NULL;
+    pv_world_begin("polyseed_decode_explicit"); st = polyseed_decode_explicit(big, (polyseed_coin)coin, L->lib, &s); pv_world_end();
+    PV_COUNT("evaluations", 1);
+    if (st != POLYSEED_ERR_NUM_WORDS) { pv_violation("C14/huge-string/decode_explicit", "a %llu-byte string -> %s", (unsigned long long)n, pv_status_name(st)); if (st == POLYSEED_OK) pv_api_free(s); }
+    polyseed_data* sd = pv_seed_from_model(&m);
+    if (sd) {
+        pv_world_begin("polyseed_crypt"); polyseed_crypt(sd, big); pv_world_end();
+        PV_COUNT("evaluations", 1);
+        if (pv_w->nkdf != 1 || pv_w->kdf[0].pwlen > POLYSEED_STR_SIZE - 1) pv_violation("C14/huge-string/crypt", "a %llu-byte password: %d KDF calls, password length %zu", (unsigned long long)n, pv_w->nkdf, pv_w->nkdf ? pv_w->kdf[0].pwlen : 0);
+        pv_api_free(sd);
+    }
+    PV_COUNT("huge.strings", 1);
+    PV_DISTINCT("nontrivial", pv_mix(0x4006e, n));
+    pv_sample("huge", "%llu-byte NUL-terminated ASCII string into decode, decode_explicit and crypt", (unsigned long long)n);
+    munmap(big, n + 1);
+}
+
 static uint64_t n_passwords(void) { return pv_scaled(40000, 1000000); }
 static void run_passwords(uint64_t idx, pv_rng* rng) {
     pv_mseed m; pv_gen_mseed(rng, 3, true, &m);
@@ -201,6 +237,6 @@ static void run_buffers(uint64_t idx, pv_rng* rng) {
 }
 
 int main(int argc, char** argv) {
-    static const pv_section secs[] = { { "phrases", n_phrases, run_phrases }, { "flood", n_flood, run_flood }, { "passwords", n_passwords, run_passwords }, { "buffers", n_buffers, run_buffers } };
-    return pv_main(argc, argv, "C14", secs, 4, init, NULL);
+    static const pv_section secs[] = { { "phrases", n_phrases, run_phrases }, { "flood", n_flood, run_flood }, { "huge", n_huge, run_huge }, { "passwords", n_passwords, run_passwords }, { "buffers", n_buffers, run_buffers } };
+    return pv_main(argc, argv, "C14", secs, 5, init, NULL);
 }
